@@ -87,6 +87,12 @@ def generate(rng: random.Random, tier: str):
         yield {"kind": "write", "wf": True, "store": rng.choice(STORE_KINDS) if i % 3 == 0 else "mem", "fmt": rng.choice([2, 3]),
                "pre": "foreign" if rng.random() < 0.2 else "fresh", "validate": rng.random() < 0.9,
                "overwrite": rng.random() < 0.1, **g}
+    # names zarr cannot use as a single member name: the write must be refused cleanly or round-trip exactly (oracle only)
+    for nm in ("a/b", ".", "..", "/x", "x/", "a//b", ".zarray", "zarr.json", ".zattrs"):
+        for fmt in (2, 3):
+            yield {"kind": "write", "wf": True, "oddname": nm, "store": "mem", "fmt": fmt, "pre": "fresh", "validate": True, "overwrite": False,
+                   "nids": {"dtype": "uint8", "shape": [2], "data": [1, 2]}, "eids": {"dtype": "uint8", "shape": [0, 2], "data": []},
+                   "nprops": {nm: {"values": {"dtype": "int16", "shape": [2], "data": [5, 6]}, "missing": None}}, "eprops": {}, "md": {"directed": True}}
     for i in range(120 if tier == "quick" else 1200):
         g = gg.rand_graph(rng)
         yield {"kind": "write", "wf": False, "store": "mem", "fmt": rng.choice([2, 3]), "pre": "fresh", "validate": True,
@@ -208,7 +214,7 @@ def run_impl(c):
         # the model's input is printed before the call: the writer may touch its arguments (C18 watches that)
         coq_in = None
         printable = all(gg.printable_np(p["values"]) for ps in (nprops, eprops) if ps for p in ps.values()) and \
-            all("/" not in k for ps in (nprops, eprops) if ps for k in ps)
+            all("/" not in k and not k.startswith(".") and k != "zarr.json" for ps in (nprops, eprops) if ps for k in ps)
         if printable:
             try:
                 kind = "KPath" if c["store"] in ("path", "str") else "KObj"
@@ -258,6 +264,11 @@ def oracle(c, o):
                          for ps in (c["nprops"], c["eprops"]) if ps for p in ps.values())
     if c["pre"] == "foreign" and c["store"] in ("path", "str"):
         return None  # writing to an existing path that holds no geff is C06's subject (existence is tested by path)
+    if c.get("oddname") is not None and o["res"][0] != "ok":
+        if o["res"][1] != "ValueError" or o["back"][0] == "ok":
+            return Failure(c, strip(o), f"property name {c['oddname']!r}: write raised {o['res'][1]} and the store afterwards reads {o['back'][0]}",
+                           {"why": "oddname", "name": c["oddname"]})
+        return None
     if o["res"][0] != "ok":
         return Failure(c, strip(o), f"write_arrays raised {o['res'][1]} on a well-formed graph: {o['res'][2]}",
                        {"why": "write-raises", "exc": o["res"][1], "empty_vlen": has_empty_vlen})
